@@ -170,6 +170,21 @@ namespace
     return std::make_pair(ok, v);
   }
 
+  // Commands write their output to std::cout, which is buffered.  A
+  // failed write (for example because the disc is full) may therefore
+  // only become apparent when the stream is flushed, so flush it
+  // before deciding on the exit status.
+  bool finish_output(bool ok)
+  {
+    std::cout.flush();
+    if (!std::cout.good())
+      {
+	std::cerr << "error: failed to write to standard output\n";
+	return false;
+      }
+    return ok;
+  }
+
 std::unique_ptr<std::map<std::string, std::string>> option_help;
 
 std::unique_ptr<std::map<std::string, std::string>> make_option_help()
@@ -304,7 +319,7 @@ int main (int argc, char *argv[])
 	case OPT_HELP:
 	  {
 	    DFS::CommandHelp help;
-	    return help.invoke(storage, ctx, extra_args) ? 0 : 1;
+	    return finish_output(help.invoke(storage, ctx, extra_args)) ? 0 : 1;
 	  }
 	}
     }
@@ -330,7 +345,7 @@ int main (int argc, char *argv[])
 	{
 	  storage.show_drive_configuration(std::cerr);
 	}
-      return instance->invoke(storage, ctx, extra_args) ? 0 : 1;
+      return finish_output(instance->invoke(storage, ctx, extra_args)) ? 0 : 1;
     }
   catch (std::exception& e)
     {
